@@ -36,6 +36,10 @@ func main() {
 		replay(os.Args[2])
 		return
 	}
+	if os.Args[1] == "c18child" {
+		c18Child(os.Args[2]) // the server process of op c18sig
+		return
+	}
 	seed := uint64(1)
 	if len(os.Args) > 3 {
 		s, _ := strconv.ParseUint(os.Args[3], 10, 64)
@@ -66,7 +70,7 @@ func (r *Rng) Intn(n int) int {
 	}
 	return int(r.U64() % uint64(n))
 }
-func (r *Rng) Bool() bool { return r.U64()&1 == 1 }
+func (r *Rng) Bool() bool             { return r.U64()&1 == 1 }
 func (r *Rng) Pick(alpha []byte) byte { return alpha[r.Intn(len(alpha))] }
 func (r *Rng) Bytes(alpha []byte, maxLen int) []byte {
 	n := r.Intn(maxLen + 1)
